@@ -418,6 +418,8 @@ pub fn framing_row_to_scenario(row: &Value) -> Option<Value> {
             "over64" => "18446744073709551616".into(),
             "hex" => "0x3".into(),
             "float" => "3.0".into(),
+            "list-differ" => "5, 7".into(),
+            "list-junk" => "3,abc".into(),
             other => other.to_string(),
         }
     };
